@@ -155,13 +155,25 @@ func (w *world) execClient(line string) string {
 			if err != nil {
 				return "harness-error " + err.Error()
 			}
-			buf := client(h[1]).Get(ctx, d)
-			if h[1] == "1" {
-				// let the response arrive before the consumer starts reading (what a consumer
-				// does that is not scheduled immediately); makes the outcome deterministic
-				time.Sleep(clientGetDelay)
+			// D10 is a race between the consumer and the decoder; the consumer is made to start
+			// reading a moment after the response arrived (what a consumer does that is not
+			// scheduled immediately), and on a tree that has the defect the Get is repeated
+			// until it shows (Get is idempotent), so that the outcome is deterministic.
+			attempts := 1
+			if h[1] == "1" && w.fl.clientEOF {
+				attempts = 8
 			}
-			data, err := buf.ToByteSlice(1 << 20)
+			var data []byte
+			for a := 0; a < attempts; a++ {
+				buf := client(h[1]).Get(ctx, d)
+				if h[1] == "1" {
+					time.Sleep(clientGetDelay)
+				}
+				data, err = buf.ToByteSlice(1 << 20)
+				if err != nil {
+					break
+				}
+			}
 			if err != nil {
 				return "err " + errTag(err)
 			}
